@@ -397,7 +397,17 @@ def hZip : Handler := handler fun args =>
     | none => pure raised
   | _ => none
 
-def tableC48 : List (String × Handler) := [
+/-- `(join keymod (other…) parts)`: keys are `x mod keymod` on both sides -/
+def hJoin : Handler := handler fun args =>
+  match args with
+  | [km, other, parts] => do
+    let km ← km.toNat?
+    let key := fun (x : Int) => (x % (km : Int)).toNat
+    pure (.list ((joinB key key (← other.toInts?) (← parts.toIntss?)).map fun p =>
+      .list (p.map fun yx => .list [.int yx.1, .int yx.2])))
+  | _ => none
+
+def tableC48 : List (String × Handler) := [("join", hJoin),
   ("accumulate", hAccumulate), ("take", hTake), ("boundaries", hBoundaries), ("nsplits", hNsplits),
   ("repartition", hRepartition), ("fold", hFold), ("foldnoinit", hFoldNoInit), ("sum", hSum), ("count", hCount),
   ("max", hMax), ("topk", hTopk), ("freq", hFreq), ("distinct", hDistinct), ("foldby", hFoldby),
